@@ -938,18 +938,44 @@ func ruleC15VersionAfterHandler(c *Ctx) {
 	}
 	n := 0
 	bad := ""
-	for _, in := range instrsOf(dh) {
-		u, ok := in.(*ssa.UnOp)
-		if !ok || u.Op != token.MUL {
-			continue
+	readsVer := func(g *ssa.Function) bool {
+		if g == nil || g.Blocks == nil || !c.InPkg(g) || g.Signature.Results().Len() == 0 {
+			return false
 		}
-		fa, ok := u.X.(*ssa.FieldAddr)
-		if !ok || fieldOf(fa) != fVer {
+		for _, in := range instrsOf(g) {
+			if u, ok := in.(*ssa.UnOp); ok && u.Op == token.MUL {
+				if fa, ok := u.X.(*ssa.FieldAddr); ok && fieldOf(fa) == fVer {
+					return true
+				}
+			}
+		}
+		return false
+	}
+	for _, in := range instrsOf(dh) {
+		var u ssa.Value
+		switch x := in.(type) {
+		case *ssa.UnOp:
+			if x.Op != token.MUL {
+				continue
+			}
+			fa, ok := x.X.(*ssa.FieldAddr)
+			if !ok || fieldOf(fa) != fVer {
+				continue
+			}
+			u = x
+		case *ssa.Call:
+			// a helper that reads the version and answers with (or according to) it: its call is the read
+			if in == hcall || !readsVer(x.Call.StaticCallee()) {
+				continue
+			}
+			u = x
+		default:
 			continue
 		}
 		n++
 		// read before the handler call?
-		before := u.Block() == hcall.Block() && instrIndex(u) < instrIndex(hcall) || u.Block() != hcall.Block() && blockReaches(u.Block(), hcall.Block()) && !blockReaches(hcall.Block(), u.Block())
+		ui := u.(ssa.Instruction)
+		before := ui.Block() == hcall.Block() && instrIndex(ui) < instrIndex(hcall) || ui.Block() != hcall.Block() && blockReaches(ui.Block(), hcall.Block()) && !blockReaches(hcall.Block(), ui.Block())
 		if !before {
 			continue
 		}
@@ -992,7 +1018,7 @@ func ruleC15VersionAfterHandler(c *Ctx) {
 			return false
 		}
 		if used(u, 0) {
-			bad = c.Pos(u.Pos())
+			bad = c.Pos(ui.Pos())
 		}
 	}
 	key := fnName(dh) + ":version-read"
